@@ -1,27 +1,61 @@
+// Command memfsconc is the implementation side of property C09 (memfs under concurrent use).
+//
+//	memfsconc replay <scenarios> <expect>   gated replays of the real memfs through the verifhook yield
+//	                                         points; <expect> is the model's output for the same file
+//	                                         (used only to choose how long to wait for each event)
+//	memfsconc gen <n>                        seeded generator of replay scenarios
+//	memfsconc stress <rounds> [chaos]        ungated stress, prints one history per round for the monitor
+//	memfsconc facts <repo>                   go/ast facts about the lock brackets in memfs
+//	memfsconc kfrace <n>                     witness of KF-C09-1 for the -race build: Remove(dir) against a creation in dir
 package main
 
 import (
+	"bufio"
 	"fmt"
-	"time"
-
-	"github.com/goatcms/goatcore/filesystem/filespace/memfs"
+	"os"
+	"strconv"
 )
 
 func main() {
-	fs, _ := memfs.NewFilespace()
-	fs.WriteFile("d/f", []byte("x"), 0644)
-	w, _ := fs.Writer("d/f")
-	done2 := make(chan struct{})
-	go func() { fs.Copy("d", "e"); close(done2) }()
-	time.Sleep(200 * time.Millisecond)
-	done1 := make(chan struct{})
-	go func() { fs.WriteFile("d/g", []byte("z"), 0644); w.Close(); close(done1) }()
-	select {
-	case <-done1:
-		<-done2
-		fmt.Println("no deadlock")
-	case <-time.After(3 * time.Second):
-		fmt.Println("DEADLOCK: holder of handle d/f blocked in WriteFile(d/g) against Copy(d,e)")
+	if len(os.Args) < 2 {
+		fmt.Fprintln(os.Stderr, "usage: memfsconc replay|gen|stress|facts …")
+		os.Exit(2)
 	}
-	// variant: Remove with unlocked len
+	out := bufio.NewWriterSize(os.Stdout, 1<<16)
+	defer out.Flush()
+	switch os.Args[1] {
+	case "replay":
+		if len(os.Args) < 4 {
+			fmt.Fprintln(os.Stderr, "usage: memfsconc replay <scenarios> <expect>")
+			os.Exit(2)
+		}
+		replayMain(out, os.Args[2], os.Args[3])
+	case "gen":
+		n := 100
+		if len(os.Args) > 2 {
+			n, _ = strconv.Atoi(os.Args[2])
+		}
+		genMain(out, n)
+	case "stress":
+		n := 10
+		if len(os.Args) > 2 {
+			n, _ = strconv.Atoi(os.Args[2])
+		}
+		stressMain(out, n)
+	case "kfrace":
+		n := 2000
+		if len(os.Args) > 2 {
+			n, _ = strconv.Atoi(os.Args[2])
+		}
+		kfraceMain(out, n)
+	case "facts":
+		repo := "/repo"
+		if len(os.Args) > 2 {
+			repo = os.Args[2]
+		}
+		factsMain(out, repo)
+	default:
+		fmt.Fprintln(os.Stderr, "unknown mode", os.Args[1])
+		os.Exit(2)
+	}
 }
